@@ -4,7 +4,8 @@
 (* ("a", "-", "1"); the others have symbolic codes which the Go harness maps  *)
 (* to concrete runes: "sp" "tab" "nl" "cr" (the four XML white-space          *)
 (* characters), "nbsp" (a Unicode space that is NOT XML white space), "w2"    *)
-(* "w3" "w4" (2-, 3-, 4-byte UTF-8 characters), "cm" (a combining mark).      *)
+(* "w3" "w4" (2-, 3-, 4-byte UTF-8 characters), "cm" (a combining mark),      *)
+(* "wsl" (a letter whose code point ends in the byte of a white-space char).  *)
 (* Positions and lengths are indices into the sequence, never bytes.          *)
 (***************************************************************************)
 EXTENDS XNum, SequencesExt
@@ -112,7 +113,7 @@ FracChars(r, d) == IF r = 0 THEN <<>> ELSE <<DigitChar((r * 10) \div d)>> \o Fra
 UnkStr == <<"?unk">>   \* marker for "not determined by the specification"
 NumToStr(a) ==
   CASE a.c = "nan" -> <<"N", "a", "N">>
-    [] a.c \in {"unk", "pow2"} -> UnkStr     \* (a pow2 is printed through the "numstr" obligation, see XPath!string)
+    [] a.c \in {"unk", "pow2", "named"} -> UnkStr     \* (a pow2 is printed through the "numstr" obligation, see XPath!string)
     [] a.c = "inf" -> (IF a.s = -1 THEN <<"-">> ELSE <<>>) \o <<"I", "n", "f", "i", "n", "i", "t", "y">>
     [] a.c = "zero" -> <<"0">>
     [] OTHER -> IF ~IsPow2(a.d) THEN UnkStr
